@@ -585,7 +585,7 @@ func moveNext(it *xpath.NodeIterator) (ok bool, id int, tail string) {
 	if !it.MoveNext() {
 		return false, -1, ""
 	}
-	n, isNav := it.Current().(*world.Nav)
+	n, isNav := it.Current().(world.IDer)
 	if !isNav {
 		return false, -1, "other:current is not a harness navigator"
 	}
